@@ -365,10 +365,31 @@ func (w *World) FieldByType(p *packages.Package, structName, role string, pred f
 			found = append(found, st.Field(i))
 		}
 	}
+	if len(found) > 1 {
+		// several candidates: the name recorded when the table was frozen decides
+		for _, f := range found {
+			if hint, ok := roleHints[role]; ok && f.Name() == hint {
+				return f
+			}
+		}
+	}
 	if len(found) != 1 {
 		undecidedf("role %q: expected exactly one matching field in %s.%s, found %d", role, p.PkgPath, structName, len(found))
 	}
 	return found[0]
+}
+
+// roleHints: current names of role fields, used only to disambiguate when a
+// change adds a second field of the same type.
+var roleHints = map[string]string{
+	"singleton table":  "singletons",
+	"scoped cache":     "instances",
+	"initializer list": "voidReturnScopedDescriptors",
+	"services view":    "services",
+	"groups view":      "groups",
+	"descriptor list":  "allDescriptors",
+	"node table":       "nodes",
+	"edge table":       "edges",
 }
 
 // SSA builds (once) the SSA form of the root module's packages.
